@@ -84,6 +84,32 @@ async fn main() {
             }
         }
     }
+    // ---- a remote manager of a group publishes a Promote / Demote auth message (well-typed, authorised): processing it
+    // must return a result or an error, not panic
+    for (what, promote) in [("promote", true), ("demote", false)] {
+        n += 1;
+        let alice = TestPeer::new(0).await;
+        let bob = TestPeer::new(1).await;
+        let carol = TestPeer::new(2).await;
+        for p in [&bob, &carol] { alice.manager.register_member(&p.manager.me().await.unwrap()).await.unwrap(); }
+        // bob creates a group with himself (manager), alice (manager) and carol (read); alice learns about it
+        let (g, create) = bob.manager.create_group_persisted(&[(bob.manager.id(), p2panda_auth::Access::manage()), (alice.manager.id(), p2panda_auth::Access::manage()), (carol.manager.id(), p2panda_auth::Access::read())]).await.unwrap();
+        alice.persist_operation(&create).await.unwrap();
+        let _ = alice.manager.process_persisted(&create).await;
+        let group_id = g.id();
+        let forge = TestForge::new(bob.store.clone(), bob.credentials.signing_key());
+        let member = p2panda_auth::group::GroupMember::Individual(carol.manager.id());
+        let action = if promote { p2panda_auth::group::GroupAction::Promote { member, access: p2panda_auth::Access::write() } } else { p2panda_auth::group::GroupAction::Demote { member, access: p2panda_auth::Access::pull() } };
+        let msg = forge.forge(SpacesArgs::Auth { group_id, group_action: action, auth_dependencies: vec![create.hash()] }).await.unwrap();
+        alice.persist_operation(&msg).await.unwrap();
+        let r = AssertUnwindSafe(alice.manager.process(&msg)).catch_unwind().await;
+        if std::env::var("RP_DEBUG").is_ok() { eprintln!("{what}: {:?}", r.as_ref().map(|x| x.as_ref().map(|e| e.2.len()).map_err(|e| e.to_string())).map_err(|_| "panic")); }
+        if let Err(p) = r {
+            let m = p.downcast_ref::<String>().cloned().or(p.downcast_ref::<&str>().map(|s| s.to_string())).unwrap_or_default();
+            let class = format!("process-panics-on-authorised-{what}-auth-message");
+            if reported.insert(class.clone()) { rp_core::report(true, &class, json!({"message": format!("Auth message with a {what} action for a reader, authored by a manager of the group")}), json!({"panic": m}), &["spaces_dispatch::Manager::process.safety"]); }
+        }
+    }
     // ---- a member of the space processes the same application message twice (duplicate delivery)
     {
         n += 1;
